@@ -1,3 +1,286 @@
-import Refinery.Model.SamplerRegistry
+import Refinery.Lemmas.SamplerRegistryRun
+/-!
+# C12 — sampler state is shared across workers and isolated between definitions
+
+Statement (properties.jsonl): all collector workers on a node use the same rate-tracking state for
+a given sampler definition, so the worker count does not change sampling statistics.  State is
+never shared between different environments or datasets, and two sampler definitions within one
+environment share state only if their entire configurations are identical.
+
+All theorems quantify over every start configuration `c0`, every list `cfgs` of configurations a
+reload may switch to, every initial peer answer `a0` and every history `ops` of lazy sampler
+creation on any worker (`get`), peer changes, config swaps, registry clears and per-worker cache
+clears.  A *cached sampler* is a member `((w, env), ent)` of `(run …).caches`; `ent.slots` are the
+dynsampler-backed samplers behind it (one for a top-level sampler, one per rule for a rules-based
+one) and `slot.id` is the identity of the dynsampler instance (the rate-tracking state).
+`ent.epoch = st.epoch` says the sampler was built after the last `ClearDynsamplers`.
+
+Result: sharing across workers and `reload_clears` are proved; the isolation half of the property
+is **refuted** for the code as it is (three machine-checked witness classes, each reproduced on the
+real `SamplerFactory` by the harness, corpus/C12) and proved under the exact hypotheses the proof
+needs (`isolation_partial`).
+-/
 namespace Refinery.Props.C12
+open Refinery Refinery.Model.SamplerRegistry Refinery.Lemmas.SamplerRegistry
+
+/-- **workers_share** — whenever registry keys determine the sampler type (`Faithful`; implied by
+sampler keys without ':', see `workers_share_colonFree`), after any history and for any creation
+order: two samplers built since the last reload — by any workers, for any sampler keys — that were
+built for the same key prefix and the same definition use the same dynsampler instance. -/
+theorem workers_share (c0 : Config) (a0 : Option Nat) (cfgs : List Config) (ops : List Op)
+    (E : Str → Prop) (ho : OpsIn E ops) (hF : Faithful (InPlay (c0 :: cfgs) E)) :
+    ∀ key1 ent1 key2 ent2, (key1, ent1) ∈ (run c0 a0 cfgs ops).caches →
+      (key2, ent2) ∈ (run c0 a0 cfgs ops).caches →
+      ent1.epoch = (run c0 a0 cfgs ops).epoch → ent2.epoch = (run c0 a0 cfgs ops).epoch →
+      ∀ s1 ∈ ent1.slots, ∀ s2 ∈ ent2.slots, s1.pfx = s2.pfx → s1.d = s2.d → s1.id = s2.id := by
+  intro key1 ent1 key2 ent2 hm1 hm2 he1 he2 s1 hs1 s2 hs2 hp hd
+  have inv := inv_run c0 a0 cfgs E ops ho
+  have c1 := inv.f hF key1 ent1 hm1 he1 s1 hs1
+  have c2 := inv.f hF key2 ent2 hm2 he2 s2 hs2
+  have ok1 := ((inv.c.slotWF key1 ent1 hm1).2 s1 hs1).2.2.1
+  have ok2 := ((inv.c.slotWF key2 ent2 hm2).2 s2 hs2).2.2.1
+  cases h1 : s1.id with
+  | none =>
+    have : s2.d.kind = .determ := by rw [← hd]; exact ok1.mp h1
+    rw [ok2.mpr this]
+  | some id1 =>
+    cases h2 : s2.id with
+    | none =>
+      have : s1.d.kind = .determ := by rw [hd]; exact ok2.mp h2
+      rw [ok1.mpr this] at h1; cases h1
+    | some id2 =>
+      have a := c1 id1 h1
+      have b := c2 id2 h2
+      rw [hp, hd, b] at a
+      exact a.symm
+
+/-- `workers_share` for sampler keys (environment / dataset names) that contain no ':' -/
+theorem workers_share_colonFree (c0 : Config) (a0 : Option Nat) (cfgs : List Config) (ops : List Op)
+    (ho : OpsIn (fun e => ':' ∉ e) ops) :
+    ∀ key1 ent1 key2 ent2, (key1, ent1) ∈ (run c0 a0 cfgs ops).caches →
+      (key2, ent2) ∈ (run c0 a0 cfgs ops).caches →
+      ent1.epoch = (run c0 a0 cfgs ops).epoch → ent2.epoch = (run c0 a0 cfgs ops).epoch →
+      ∀ s1 ∈ ent1.slots, ∀ s2 ∈ ent2.slots, s1.pfx = s2.pfx → s1.d = s2.d → s1.id = s2.id :=
+  workers_share c0 a0 cfgs ops _ ho (faithful_of_colonFree _ _ (fun _ h => h))
+
+/-- Two workers' samplers for the same sampler key, built since the last reload from the same
+definitions, are backed by the same instances slot by slot: the worker count does not matter. -/
+theorem workers_share_entry (c0 : Config) (a0 : Option Nat) (cfgs : List Config) (ops : List Op)
+    (ho : OpsIn (fun e => ':' ∉ e) ops) (w1 w2 : Nat) (env : Str) (ent1 ent2 : Entry)
+    (hm1 : ((w1, env), ent1) ∈ (run c0 a0 cfgs ops).caches)
+    (hm2 : ((w2, env), ent2) ∈ (run c0 a0 cfgs ops).caches)
+    (he1 : ent1.epoch = (run c0 a0 cfgs ops).epoch) (he2 : ent2.epoch = (run c0 a0 cfgs ops).epoch)
+    (hsame : ent1.slots.map (fun s => (s.pfx, s.d)) = ent2.slots.map (fun s => (s.pfx, s.d))) :
+    ent1.slots.map (·.id) = ent2.slots.map (·.id) := by
+  have key := workers_share_colonFree c0 a0 cfgs ops ho _ ent1 _ ent2 hm1 hm2 he1 he2
+  generalize ent1.slots = l1 at hsame key
+  generalize ent2.slots = l2 at hsame key
+  induction l1 generalizing l2 with
+  | nil => cases l2 with
+    | nil => rfl
+    | cons b t => simp at hsame
+  | cons a t ih =>
+    cases l2 with
+    | nil => simp at hsame
+    | cons b t' =>
+      simp only [List.map_cons, List.cons.injEq, Prod.mk.injEq] at hsame ⊢
+      refine ⟨key a (by simp) b (by simp) hsame.1.1 hsame.1.2, ih t' hsame.2 ?_⟩
+      intro s1 hs1 s2 hs2
+      exact key s1 (List.mem_cons_of_mem _ hs1) s2 (List.mem_cons_of_mem _ hs2)
+
+/-! ### reload -/
+
+/-- **reload_clears (registry)** — `ClearDynsamplers` leaves no instance and no goal bookkeeping behind. -/
+theorem reload_clears_registry (c0 : Config) (a0 : Option Nat) (cfgs : List Config) (ops : List Op) :
+    (run c0 a0 cfgs (ops ++ [.clear])).reg = [] ∧ (run c0 a0 cfgs (ops ++ [.clear])).goalCfg = [] := by
+  simp [run, List.foldl_append, step]
+
+/-- right after `ClearDynsamplers` every cached sampler is from before it … -/
+theorem reload_makes_stale (c0 : Config) (a0 : Option Nat) (cfgs : List Config) (ops : List Op) :
+    ∀ key ent, (key, ent) ∈ (run c0 a0 cfgs (ops ++ [.clear])).caches →
+      ent.epoch < (run c0 a0 cfgs (ops ++ [.clear])).epoch := by
+  intro key ent hm
+  have inv := inv_run c0 a0 cfgs (fun _ => True) ops (fun _ _ _ => trivial)
+  have e : run c0 a0 cfgs (ops ++ [.clear]) =
+      { run c0 a0 cfgs ops with reg := [], goalCfg := [], epoch := (run c0 a0 cfgs ops).epoch + 1 } := by
+    simp [run, List.foldl_append, step]
+  rw [e] at hm ⊢
+  have := (inv.c.slotWF key ent hm).1
+  simp only
+  omega
+
+/-- … a sampler a worker builds is stamped with the current reload count … -/
+theorem built_is_current (cfgs : List Config) (st : St) (w : Nat) (env : Str) (ent : Entry)
+    (hmiss : AList.get st.caches (w, env) = none)
+    (hhit : AList.get (step cfgs st (.get w env)).caches (w, env) = some ent) :
+    ent.epoch = (step cfgs st (.get w env)).epoch := by
+  simp only [step, hmiss] at hhit ⊢
+  cases hg : getSampler st env with
+  | none => simp only [hg] at hhit; rw [hmiss] at hhit; cases hhit
+  | some r =>
+    simp only [hg] at hhit ⊢
+    rw [AList.get_put] at hhit
+    simp only [if_true, Option.some.injEq] at hhit
+    rw [← hhit]
+
+/-- **reload_clears** — … and samplers built under different reload counts never share an
+instance: whatever was created before `ClearDynsamplers` is not handed out after it. -/
+theorem reload_clears (c0 : Config) (a0 : Option Nat) (cfgs : List Config) (ops : List Op) :
+    ∀ key1 ent1 key2 ent2, (key1, ent1) ∈ (run c0 a0 cfgs ops).caches →
+      (key2, ent2) ∈ (run c0 a0 cfgs ops).caches → ent1.epoch ≠ ent2.epoch →
+      ∀ s1 ∈ ent1.slots, ∀ s2 ∈ ent2.slots, ∀ id, s1.id = some id → s2.id ≠ some id := by
+  intro key1 ent1 key2 ent2 hm1 hm2 hne s1 hs1 s2 hs2 id h1 h2
+  have inv := inv_run c0 a0 cfgs (fun _ => True) ops (fun _ _ _ => trivial)
+  obtain ⟨i1, hi1, _, hb1, _⟩ := ((inv.c.slotWF key1 ent1 hm1).2 s1 hs1).2.2.2 id h1
+  obtain ⟨i2, hi2, _, hb2, _⟩ := ((inv.c.slotWF key2 ent2 hm2).2 s2 hs2).2.2.2 id h2
+  rw [hi1] at hi2; cases hi2
+  exact hne (hb1.symm.trans hb2)
+
+/-- a worker that handles its reload signal has no cached sampler left -/
+theorem worker_reload_clears_cache (c0 : Config) (a0 : Option Nat) (cfgs : List Config) (ops : List Op)
+    (w : Nat) : ∀ key ent, (key, ent) ∈ (run c0 a0 cfgs (ops ++ [.wreload w])).caches → key.1 ≠ w := by
+  intro key ent hm
+  have e : (run c0 a0 cfgs (ops ++ [.wreload w])).caches =
+      AList.keep (run c0 a0 cfgs ops).caches (fun k _ => k.1 != w) := by
+    simp [run, List.foldl_append, step]
+  rw [e] at hm
+  unfold AList.keep at hm
+  have := (List.mem_filter.mp hm).2
+  simpa using this
+
+/-! ### isolation -/
+
+/-- two definitions are the same configuration: everything equal, field order aside -/
+def SameConfig (d1 d2 : Def) : Prop :=
+  d1.kind = d2.kind ∧ d1.rate = d2.rate ∧ d1.fields.Perm d2.fields ∧
+    d1.useCluster = d2.useCluster ∧ d1.tuning = d2.tuning
+
+/-- The isolation half of C12 at full strength: whenever two cached sampler slots use the same
+instance, they belong to the same environment / dataset and their configurations are identical. -/
+def FullIsolation : Prop :=
+  ∀ (c0 : Config) (a0 : Option Nat) (cfgs : List Config) (ops : List Op),
+    ∀ key1 ent1 key2 ent2, (key1, ent1) ∈ (run c0 a0 cfgs ops).caches →
+      (key2, ent2) ∈ (run c0 a0 cfgs ops).caches →
+      ∀ s1 ∈ ent1.slots, ∀ s2 ∈ ent2.slots, ∀ id, s1.id = some id → s2.id = some id →
+        key1.2 = key2.2 ∧ SameConfig s1.d s2.d
+
+private def str (x : String) : Str := x.toList
+
+private def dynA (t : Nat) : Def := { kind := .dynamic, rate := 10, fields := [str "a"], useCluster := false, tuning := t }
+
+/-- witness (a): one rules-based environment, two downstream definitions that differ only in a tuning parameter -/
+private def cfgTuning : Config := [(str "prod", .rules [dynA 0, dynA 2])]
+/-- witness (b): environment `rules:x:` (top level) and the downstream sampler of environment `x` -/
+private def cfgEnv : Config := [(str "x", .rules [dynA 0]), (str "rules:x:", .leaf (dynA 0))]
+/-- witness (c): FieldList ["a b"] and FieldList ["a", "b"] -/
+private def cfgFields : Config :=
+  [(str "prod", .rules [{ dynA 0 with fields := [str "a b"] }, { dynA 0 with fields := [str "a", str "b"] }])]
+
+/-- **refutation (a)** — two definitions of one environment that differ only in a tuning parameter
+(ClearFrequency, MaxKeys, UseTraceLength, Weight, …; likewise UseClusterSize) share one instance. -/
+theorem isolation_refuted_tuning :
+    ∃ ent s1 s2 id, ((0, str "prod"), ent) ∈ (run cfgTuning (some 1) [] [.get 0 (str "prod")]).caches ∧
+      s1 ∈ ent.slots ∧ s2 ∈ ent.slots ∧ s1.id = some id ∧ s2.id = some id ∧
+      s1.d.kind = s2.d.kind ∧ s1.d.rate = s2.d.rate ∧ s1.d.fields = s2.d.fields ∧
+      s1.d.useCluster = s2.d.useCluster ∧ s1.d.tuning ≠ s2.d.tuning :=
+  ⟨⟨[⟨rulesPrefix (str "prod"), dynA 0, some 0⟩, ⟨rulesPrefix (str "prod"), dynA 2, some 0⟩], 0⟩,
+    ⟨rulesPrefix (str "prod"), dynA 0, some 0⟩, ⟨rulesPrefix (str "prod"), dynA 2, some 0⟩, 0, by decide⟩
+
+/-- **refutation (b)** — different environments share an instance: the top-level sampler of
+environment `rules:x:` and the downstream sampler of environment `x`, on two workers. -/
+theorem isolation_refuted_env :
+    ∃ ent1 ent2 s1 s2 id,
+      ((0, str "x"), ent1) ∈ (run cfgEnv (some 1) [] [.get 0 (str "x"), .get 1 (str "rules:x:")]).caches ∧
+      ((1, str "rules:x:"), ent2) ∈ (run cfgEnv (some 1) [] [.get 0 (str "x"), .get 1 (str "rules:x:")]).caches ∧
+      s1 ∈ ent1.slots ∧ s2 ∈ ent2.slots ∧ s1.id = some id ∧ s2.id = some id ∧ str "x" ≠ str "rules:x:" :=
+  ⟨⟨[⟨rulesPrefix (str "x"), dynA 0, some 0⟩], 0⟩, ⟨[⟨str "rules:x:", dynA 0, some 0⟩], 0⟩,
+    ⟨rulesPrefix (str "x"), dynA 0, some 0⟩, ⟨str "rules:x:", dynA 0, some 0⟩, 0, by decide⟩
+
+/-- **refutation (c)** — `FieldList ["a b"]` and `FieldList ["a","b"]` (same environment, type and
+rate) share an instance although the field lists are not permutations of each other. -/
+theorem isolation_refuted_fieldlist :
+    ∃ ent s1 s2 id, ((0, str "prod"), ent) ∈ (run cfgFields (some 1) [] [.get 0 (str "prod")]).caches ∧
+      s1 ∈ ent.slots ∧ s2 ∈ ent.slots ∧ s1.id = some id ∧ s2.id = some id ∧
+      s1.d.fields.length ≠ s2.d.fields.length :=
+  ⟨⟨[⟨rulesPrefix (str "prod"), { dynA 0 with fields := [str "a b"] }, some 0⟩,
+      ⟨rulesPrefix (str "prod"), { dynA 0 with fields := [str "a", str "b"] }, some 0⟩], 0⟩,
+    ⟨rulesPrefix (str "prod"), { dynA 0 with fields := [str "a b"] }, some 0⟩,
+    ⟨rulesPrefix (str "prod"), { dynA 0 with fields := [str "a", str "b"] }, some 0⟩, 0, by decide⟩
+
+/-- **full_statement_refuted** — the isolation half of C12 does not hold for the code as it is. -/
+theorem isolation_refuted : ¬ FullIsolation := by
+  intro h
+  obtain ⟨ent, s1, s2, id, hm, h1, h2, i1, i2, _, _, _, _, hne⟩ := isolation_refuted_tuning
+  exact hne (h _ _ _ _ _ ent _ ent hm hm s1 h1 s2 h2 id i1 i2).2.2.2.2.2
+
+/-- **isolation_partial** — for sampler keys (environment / dataset names) without ':' — after any
+history, for any two cached sampler slots of any workers that use the same instance: they belong
+to the same environment, sit at the same position (same key prefix), have the same sampler type and
+the same rate / goal; and if moreover all their field names are non-empty and free of spaces, their
+field lists are permutations of each other.  (What may still differ: tuning parameters and
+UseClusterSize — refutation (a).) -/
+theorem isolation_partial (c0 : Config) (a0 : Option Nat) (cfgs : List Config) (ops : List Op)
+    (ho : OpsIn (fun e => ':' ∉ e) ops) :
+    ∀ key1 ent1 key2 ent2, (key1, ent1) ∈ (run c0 a0 cfgs ops).caches →
+      (key2, ent2) ∈ (run c0 a0 cfgs ops).caches →
+      ∀ s1 ∈ ent1.slots, ∀ s2 ∈ ent2.slots, ∀ id, s1.id = some id → s2.id = some id →
+        key1.2 = key2.2 ∧ s1.pfx = s2.pfx ∧ s1.d.kind = s2.d.kind ∧ s1.d.rate = s2.d.rate ∧
+        ((∀ f ∈ s1.d.fields, CleanField f) → (∀ f ∈ s2.d.fields, CleanField f) →
+          s1.d.fields.Perm s2.d.fields) := by
+  intro key1 ent1 key2 ent2 hm1 hm2 s1 hs1 s2 hs2 id h1 h2
+  have inv := inv_run c0 a0 cfgs _ ops ho
+  obtain ⟨_, hp1, _, hi1⟩ := (inv.c.slotWF key1 ent1 hm1).2 s1 hs1
+  obtain ⟨_, hp2, _, hi2⟩ := (inv.c.slotWF key2 ent2 hm2).2 s2 hs2
+  obtain ⟨i1, hg1, hk1, _, _⟩ := hi1 id h1
+  obtain ⟨i2, hg2, hk2, _, _⟩ := hi2 id h2
+  rw [hg1] at hg2; cases hg2
+  have hk : makeKey s1.pfx s1.d = makeKey s2.pfx s2.d := hk1.symm.trans hk2
+  have hc1 : ':' ∉ key1.2 := inv.keys key1 ent1 hm1
+  have hc2 : ':' ∉ key2.2 := inv.keys key2 ent2 hm2
+  -- the origins of the two slots
+  have ho1 : ∃ o : Origin, o.env = key1.2 ∧ o.pfx = s1.pfx := by
+    rcases hp1 with e | e
+    · exact ⟨.top key1.2, rfl, e.symm⟩
+    · exact ⟨.down key1.2, rfl, e.symm⟩
+  have ho2 : ∃ o : Origin, o.env = key2.2 ∧ o.pfx = s2.pfx := by
+    rcases hp2 with e | e
+    · exact ⟨.top key2.2, rfl, e.symm⟩
+    · exact ⟨.down key2.2, rfl, e.symm⟩
+  obtain ⟨o1, e1, p1⟩ := ho1
+  obtain ⟨o2, e2, p2⟩ := ho2
+  rw [← p1, ← p2] at hk
+  obtain ⟨ho, hkind, hrate, hjoin⟩ := makeKey_inj (by rw [e1]; exact hc1) (by rw [e2]; exact hc2) hk
+  refine ⟨by rw [← e1, ← e2, ho], by rw [← p1, ← p2, ho], hkind, hrate, ?_⟩
+  intro hf1 hf2
+  have hs : sortStr s1.d.fields = sortStr s2.d.fields :=
+    joinSp_inj _ _ (fun a ha => hf1 a ((sortStr_perm _).mem_iff.mp ha))
+      (fun a ha => hf2 a ((sortStr_perm _).mem_iff.mp ha)) hjoin
+  exact (sortStr_perm _).symm.trans (hs ▸ sortStr_perm _)
+
+/-! ### sharing needs faithful keys -/
+
+private def dynE : Def := { kind := .dynamic, rate := 1, fields := [str "x:emadynamic:2:[y]"], useCluster := false, tuning := 0 }
+private def emaE : Def := { kind := .emadynamic, rate := 2, fields := [str "y]"], useCluster := false, tuning := 0 }
+/-- two definitions of different sampler types with the same registry key `e:dynamic:1:[x:emadynamic:2:[y]]` -/
+private def cfgClash : Config := [(str "e", .leaf dynE), (str "e:dynamic:1:[x", .leaf emaE)]
+private def opsClash : List Op := [.get 0 (str "e"), .get 0 (str "e:dynamic:1:[x"), .get 1 (str "e")]
+
+/-- Without the hypothesis of `workers_share` sharing can fail: when definitions of different
+sampler types have the same registry key, each creation replaces the other's registry entry and two
+workers end up with different instances for the very same definition. -/
+theorem workers_share_needs_faithful_keys :
+    ∃ ent1 ent2, ((0, str "e"), ent1) ∈ (run cfgClash (some 1) [] opsClash).caches ∧
+      ((1, str "e"), ent2) ∈ (run cfgClash (some 1) [] opsClash).caches ∧
+      ent1.epoch = (run cfgClash (some 1) [] opsClash).epoch ∧
+      ent2.epoch = (run cfgClash (some 1) [] opsClash).epoch ∧
+      ent1.slots.map (fun s => (s.pfx, s.d)) = ent2.slots.map (fun s => (s.pfx, s.d)) ∧
+      ent1.slots.map (·.id) ≠ ent2.slots.map (·.id) :=
+  ⟨⟨[⟨str "e", dynE, some 0⟩], 0⟩, ⟨[⟨str "e", dynE, some 1⟩], 0⟩, by decide⟩
+
+/-! Non-vacuity: concrete histories evaluated by the kernel. -/
+example : makeKey (rulesPrefix (str "prod")) (dynA 0) = str "rules:prod::dynamic:10:[a]" := by decide
+example : makeKey (str "e") { dynA 0 with rate := -3, fields := [str "b", str "a c"] } = str "e:dynamic:-3:[a c b]" := by decide
+example : ((run cfgTuning (some 1) [] [.get 0 (str "prod"), .clear, .get 1 (str "prod")]).caches.map
+    fun p => (p.1.1, p.2.epoch, p.2.slots.map (·.id))) = [(1, 1, [some 1, some 1]), (0, 0, [some 0, some 0])] := by decide
+
 end Refinery.Props.C12
